@@ -799,6 +799,49 @@ func runLockRMW(c *core.Ctx) {
 				}
 			}
 		})
+		if !lookup && len(gets) > 0 && len(inserts) > 0 {
+			// the lookup happens in a step the index read here is handed to (refResp := respLoad(repo, index, subject))
+			var looksUp func(f *ssa.Function, d int) bool
+			looksUp = func(f *ssa.Function, d int) bool {
+				if f == nil || d > 2 || len(f.Blocks) == 0 || core.FuncPkgPath(f) != c.P.Module {
+					return false
+				}
+				hit := false
+				an.Calls(f, func(call ssa.CallInstruction) {
+					if an.IsMethod(call, r.TypesPath, "Index", "GetByAnnotation") {
+						if _, args := an.CallArgs(call); len(args) > 0 {
+							if s, ok := an.ConstString(args[0]); ok && s == subjAnnot {
+								hit = true
+							}
+						}
+					} else if sc := call.Common().StaticCallee(); sc != nil && sc != f && looksUp(sc, d+1) {
+						hit = true
+					}
+				})
+				return hit
+			}
+			an.Calls(fn, func(call ssa.CallInstruction) {
+				sc := call.Common().StaticCallee()
+				if sc == nil || sc == fn || lookup {
+					return
+				}
+				handsIndex := false
+				for _, a := range call.Common().Args {
+					for _, o := range append([]ssa.Value{an.Origin(a)}, an.Origins(a)...) {
+						if gc, idx := an.CallOf(o); gc != nil && idx <= 0 {
+							for _, g := range gets {
+								if ssa.Instruction(gc) == ssa.Instruction(g) {
+									handsIndex = true
+								}
+							}
+						}
+					}
+				}
+				if handsIndex && looksUp(sc, 1) {
+					lookup = true
+				}
+			})
+		}
 		if len(gets) == 0 || len(inserts) == 0 || !lookup {
 			continue
 		}
